@@ -1,0 +1,26 @@
+//go:build verif
+
+// Ghost code for /verif: built only with the verif tag, never part of the shipped packages.
+// Each function states a property that spans two calls as a lemma over the callees'
+// contracts; the verifier checks it against those contracts (not against the bodies).
+
+package aa
+
+// verifHV exposes the ghost heap version of the rules (bumped by every successful
+// Rule.Merge) to ghost code. Trusted accessor: see its contract.
+func verifHV() int { return 0 }
+
+// verifMergeTwice: merging an already merged list removes and reorders nothing.
+func verifMergeTwice(r Rules) (Rules, Rules) {
+	once := r.Merge()
+	twice := once.Merge()
+	return once, twice
+}
+
+// verifMergeTwiceKeepsRules: the second merge changes no rule (no Rule.Merge succeeds).
+func verifMergeTwiceKeepsRules(r Rules) bool {
+	once := r.Merge()
+	v := verifHV()
+	once.Merge()
+	return v == verifHV()
+}
